@@ -22,7 +22,7 @@ gin = ginenv.import_gin()
 ID = 'C11'
 LEVEL = 'exploration'
 ISOLATE = True
-BUDGET = {'quick': (8, 150), 'thorough': (16, 3000)}
+BUDGET = {'quick': (16, 150), 'thorough': (16, 3000)}
 RULE = ('probe shape (with/without **kw; function, class __init__/__new__, registered method) with '
         'no list / allowlist / denylist x prior configuration x 1-5 attempts over API path '
         '{bind_parameter str key, tuple key, parse_config flat, block member, multi-statement text, '
